@@ -132,7 +132,8 @@ template <typename K> static std::string run_history(const std::vector<op_t>& op
     using C = typename K::C;
     using T = typename K::T;
     c19::allocator_reset(); trk::reset();
-    alignas(16) static unsigned char store[NSLOTS][sizeof(C)];
+    // 256 bytes of padding behind every object: static_vector<T,4>(7) makes operator= write up to size() elements
+    alignas(16) static unsigned char store[NSLOTS][sizeof(C) + 256];
     bool live[NSLOTS] = {false, false};
     auto obj = [&](int k) -> C& { return *std::launder(reinterpret_cast<C*>(store[k])); };
     // object storage handed to the constructors is filled with a known byte; the barrier (and -fno-lifetime-dse,
